@@ -679,15 +679,35 @@ class H2Connection(Protocol, TimeoutMixin):
             # _sendPrioritisedData loop some time later.
             if self._outboundStreamQueues.get(streamID):
                 self.priority.unblock(streamID)
+                self._wakeSendingLoop(streamID)
             self.streams[streamID].windowUpdated()
         else:
-            # Update strictly applies to all streams.
-            for stream in self.streams.values():
+            # Update strictly applies to all streams.  (Waking the sending
+            # loop can complete streams, so iterate over a copy.)
+            for stream in list(self.streams.values()):
                 stream.windowUpdated()
 
                 # If we still have data to send for this stream, unblock it.
                 if self._outboundStreamQueues.get(stream.streamID):
                     self.priority.unblock(stream.streamID)
+                    self._wakeSendingLoop(stream.streamID)
+
+    def _wakeSendingLoop(self, streamID):
+        """
+        If the data sending loop is asleep because no stream could make
+        progress, and the given stream now has room in its flow control
+        window, resume the loop.
+
+        @param streamID: The ID of a stream that has data to send.
+        @type streamID: L{int}
+        """
+        if (
+            self._sendingDeferred is not None
+            and self.conn.local_flow_control_window(streamID) > 0
+        ):
+            d = self._sendingDeferred
+            self._sendingDeferred = None
+            d.callback(streamID)
 
     def getPeer(self):
         """
